@@ -87,9 +87,31 @@ def exporter_cases(tier, rng):
         for q in range(6): ls.append("X qr %s %d" % (name, q))
         ls += ["X counts", "X rot 2 0", "X counts", "X wb", "X counts", "X end"]
         cases.append({"id": "x%d" % i, "script": ls, "persistent": persistent, "meta": {"kind": "exporter/" + ("persistent" if persistent else "transient")}})
+    # after a reported (transient) failure the exporter must keep working: later outputs that are written in small pieces and
+    # closed by a rotation must be complete
+    for i in range(6 if tier == "quick" else 100):
+        small = (b"n%d" % i).hex()
+        n2, n3 = rng.choice([1, 2, 5]), rng.choice([1, 3])
+        ls = ["CASE x", "FAILONCE 1", "X new fd none 1 10000"]
+        ls += ["X qr %s %d" % (small, q) for q in range(3)] + ["X wb", "X rot 2 0", "X rot 2 0"]
+        ls += ["X qr %s %d" % (small, 10 + q) for q in range(n2)] + ["X wb", "X rot 3 0"]
+        ls += ["X qr %s %d" % (small, 20 + q) for q in range(n3)] + ["X wb", "X end"]
+        cases.append({"id": "y%d" % i, "script": ls, "persistent": False, "small": (n2, n3), "meta": {"kind": "exporter/after-recovery"}})
     return cases
 
+def count_qrs(data):
+    t = refcbor.parse_all(data)
+    return sum(len(v[1]) for b in t[1][2][1] for kk, v in b[1] if kk[1] == 3)
+
 def check_exporter_case(c, il, files):
+    if "small" in c:
+        res = il[2:]          # after CASE, FAILONCE
+        if not any(r.startswith("throw") for r in res[:7]): return "the rejected write was not reported by any call", None
+        for fn, want in (("fd2", c["small"][0]), ("fd3", c["small"][1])):
+            try: got = count_qrs(files.get(fn, b""))
+            except Exception as e: return "output %s, written after the failure had been reported and closed normally, is not a complete document (%d bytes): %s" % (fn, len(files.get(fn, b"")), e), None
+            if got != want: return "output %s holds %d records, %d were written to it" % (fn, got, want), None
+        return None, None
     res = il[1:]
     if not c["persistent"]: res = res[1:]
     calls = res[1:7]
